@@ -170,11 +170,16 @@ mpf_get_str (char *dbuf, mp_exp_t *exp, int base, size_t n_digits, mpf_srcptr u)
 
   /* Allocate temporary digit space.  We can't put digits directly in the user
      area, since we generate more digits than requested.  (We allocate
-     2 * GMP_LIMB_BITS extra bytes because of the digit block nature of the
-     conversion.)  */
-  tstr = (unsigned char *) TMP_ALLOC (n_digits + 2 * GMP_LIMB_BITS + 3);
+     3 * GMP_LIMB_BITS extra bytes because of the digit block nature of the
+     conversion and the guard limb in n_limbs_needed.)  */
+  tstr = (unsigned char *) TMP_ALLOC (n_digits + 3 * GMP_LIMB_BITS + 3);
 
-  n_limbs_needed = 2 + ((mp_size_t) (n_digits / mp_bases[base].chars_per_bit_exactly)) / GMP_NUMB_BITS;
+  /* One limb more than the digits occupy plus one guard limb: the operand and
+     the power of the base are both truncated to this many limbs, and the top
+     limb of either may hold a single bit, so that with only 2 + ... limbs as
+     few as two guard bits were left and the result could be off by more than
+     one unit of the last requested digit.  */
+  n_limbs_needed = 3 + ((mp_size_t) (n_digits / mp_bases[base].chars_per_bit_exactly)) / GMP_NUMB_BITS;
 
   if (ue <= n_limbs_needed)
     {
